@@ -260,7 +260,7 @@ def zero_width(spec, ty, modname, _depth=0):
 # generic "generated spec x type x value x codec" check
 
 import os as _os
-from .runner import Check as _Check, hyp_run as _hyp_run
+from .runner import Check as _Check, hyp_run as _hyp_run, watchdog as _watchdog, CaseHang as _CaseHang
 
 
 class Ctx(object):
@@ -311,6 +311,7 @@ class SpecValueCheck(_Check):
     max_types = 3
     max_values = 4
     numeric_enums_variants = (False, True)
+    hang_seconds = 20
 
     def profile(self, tier, shard):
         p = gen.Profile()
@@ -331,6 +332,8 @@ class SpecValueCheck(_Check):
         for codec in self.codecs:
             for ne in self.numeric_enums_variants:
                 out.append({'codec': codec, 'ne': ne})
+        for codec in self.codecs:
+            out.append({'codec': codec, 'ne': False, 'directed': True})
         i = 0
         while len(out) < 16:
             out.append({'codec': self.codecs[i % len(self.codecs)], 'ne': False, 'extra': i,
@@ -340,6 +343,11 @@ class SpecValueCheck(_Check):
 
     def oracle(self, x):
         raise NotImplementedError
+
+    def directed(self, tier, shard):
+        """Cases built by construction (stratification floor): list of
+        (spec, [(modname, typename, [values])]).  Run in shards flagged 'directed'."""
+        return []
 
     def compile(self, spec, shard, rec):
         return compile_spec(spec, shard['codec'], shard['ne'], rec)
@@ -364,7 +372,18 @@ class SpecValueCheck(_Check):
                 for v in vals:
                     x = Ctx(c=c, spec=spec, modname=modname, name=name, ty=ty, v=v,
                             codec=shard['codec'], ne=shard['ne'], rec=rec, shard=shard)
-                    self.oracle(x)
+                    try:
+                        with _watchdog(self.hang_seconds):
+                            self.oracle(x)
+                    except _CaseHang:
+                        x.fail('hang', 'a library call on this small case did not return within %d s; value %s'
+                               % (self.hang_seconds, short(v)))
+        if shard.get('directed'):
+            for case in self.directed(tier, shard):
+                rec.cases += 1
+                rec.cls('directed-cases')
+                body(case, rec)
+            return
         _hyp_run(strat, body, seed, n, rec, shrink=shard.get('_shrink', False),
                  timeout=shard.get('_timeout'))
 
@@ -377,7 +396,11 @@ class SpecValueCheck(_Check):
         x = Ctx(c=c, spec=spec, modname=modname, name=name, ty=ty, v=v, codec=codec, ne=ne,
                 rec=rec, shard=shard)
         x.extra = {k: case[k] for k in case.get('extra_keys', []) if k in case}
-        self.replay_oracle(x, case)
+        try:
+            with _watchdog(self.hang_seconds):
+                self.replay_oracle(x, case)
+        except _CaseHang:
+            x.fail('hang', 'a library call on this case did not return within %d s' % self.hang_seconds)
 
     def compile_replay(self, spec, shard, case):
         return asn1tools.compile_string(spec.text(), shard['codec'], numeric_enums=shard['ne'])
